@@ -27,6 +27,9 @@ var textAlphabet = []rune{
 	'\u00a0', '\u0085', '\u2003', '\u2028', '\u2029', '\ufeff', '\ufffd', 0x00, 0x01, 0x1f, 0x7f, '\v', '\f',
 }
 
+var escapeLookalikes = []string{`\r`, `\n`, `\t`, `\\`, `\"`, `\u000d`, `\x0d`, `%0D%0A`, `%0d`, `&#13;`, `&quot;`, `malformed HTTP status code "\r\nOK"`,
+	`C:\results\run1.bin`, `\\r`, `\`, `null`, `""`, `"`, `DQo=`, `\0`, `\N`, `$1`, `${x}`, `%s`, `%!d(MISSING)`, "a\\\n", "\\\r"}
+
 // CRLFRemoved counts texts in which a CR-LF pair had to be broken up: encoding/csv
 // cannot carry that pair inside a field, so it is outside the representable domain.
 var CRLFRemoved int
@@ -36,9 +39,13 @@ var CRLFRemoved int
 // characters) but never a CR-LF pair.
 func Text(t *rapid.T, label string) string {
 	var s string
-	switch rapid.IntRange(0, 9).Draw(t, label+".kind") {
+	switch rapid.IntRange(0, 10).Draw(t, label+".kind") {
 	case 0:
 		s = ""
+	case 10:
+		// texts that merely look like escapes of some layer (literal backslashes etc.): Go %q-quoted
+		// error texts, Windows paths, percent and entity encodings, JSON literals
+		s = strings.Join(rapid.SliceOfN(rapid.SampledFrom(escapeLookalikes), 1, 4).Draw(t, label), "")
 	case 1, 2:
 		s = rapid.StringMatching(`[a-zA-Z0-9_]{1,12}`).Draw(t, label)
 	case 3:
